@@ -151,7 +151,8 @@ def worker(job):
         form = rnd.choice(["to_bits", "assert_positive", "default"])
         if form == "default":
             n, full, inr = bl, 1 << bl, 0 <= v < (1 << bl)
-            src = "x = PrivVal(I[0])\nbits = x.to_bits()\nr = LinComb.from_bits(bits)\nnb = len(bits)\n"
+            cont = rnd.choice(["bits", "bits", "iter(bits)", "(b for b in bits)", "tuple(bits)", "map(lambda b: b, bits)"])   # containers a caller may hand in
+            src = "x = PrivVal(I[0])\nbits = x.to_bits()\nr = LinComb.from_bits(%s)\nnb = len(bits)\n" % cont
         elif form == "to_bits":
             src = "x = PrivVal(I[0])\nbits = x.to_bits(%d)\nr = LinComb.from_bits(bits)\nnb = len(bits)\n" % n
         else:
